@@ -11,7 +11,7 @@ import json,sys; d=json.load(open('$r')); print('    case:', d.get('case')); pri
   else echo "$p: missed   $(echo "$out" | tail -1)"; fi
 done
 git -C /repo checkout -- .
-python3 /verif/tools/rs2v_config.py; python3 /verif/tools/rs2v_digit.py; python3 /verif/tools/rs2v_glue.py; python3 /verif/tools/rs2v_loops.py; python3 /verif/tools/rs2v_div.py || true
+python3 /verif/tools/rs2v_config.py; python3 /verif/tools/rs2v_digit.py; python3 /verif/tools/rs2v_glue.py; python3 /verif/tools/rs2v_loops.py; python3 /verif/tools/rs2v_div.py; python3 /verif/tools/rs2v_parse.py || true
 rm -rf /verif/replays
 # restore evidence files written during the seeded run
 cd /verif && git checkout -- evidence 2>/dev/null
